@@ -257,6 +257,104 @@ func Transport(r *sim.Run, top *[]*UNode, nOps int, deep bool, kinds []string) [
 			}
 			done = append(done, TransportOp{"move", where + "->" + w2, u.Type})
 			r.Fault("unit-moved")
+		case "shrink-table": // a table box loses its last entries (count field and payload shortened consistently)
+			type cand struct {
+				n        *UNode
+				k        int
+				cntOff   int
+				cntBytes int
+				entry    int
+			}
+			var cands []cand
+			for k, n := range list {
+				if n.IsCont || len(n.Raw) < 8 {
+					continue
+				}
+				ver, flags := n.Raw[0], uint32(n.Raw[1])<<16|uint32(n.Raw[2])<<8|uint32(n.Raw[3])
+				switch n.Type {
+				case "stts", "ctts":
+					cands = append(cands, cand{n, k, 4, 4, 8})
+				case "stsc":
+					cands = append(cands, cand{n, k, 4, 4, 12})
+				case "stco", "stss":
+					cands = append(cands, cand{n, k, 4, 4, 4})
+				case "co64":
+					cands = append(cands, cand{n, k, 4, 4, 8})
+				case "stsz":
+					if len(n.Raw) >= 12 && binary.BigEndian.Uint32(n.Raw[4:]) == 0 {
+						cands = append(cands, cand{n, k, 8, 4, 4})
+					}
+				case "elst":
+					if ver == 0 {
+						cands = append(cands, cand{n, k, 4, 4, 12})
+					} else {
+						cands = append(cands, cand{n, k, 4, 4, 20})
+					}
+				case "saio":
+					off, e := 4, 4
+					if flags&1 != 0 {
+						off = 12
+					}
+					if ver == 1 {
+						e = 8
+					}
+					cands = append(cands, cand{n, k, off, 4, e})
+				case "sbgp":
+					off := 8
+					if ver == 1 {
+						off = 12
+					}
+					cands = append(cands, cand{n, k, off, 4, 8})
+				case "sidx":
+					off := 22
+					if ver == 1 {
+						off = 30
+					}
+					cands = append(cands, cand{n, k, off, 2, 12})
+				case "tfra":
+					// entry size depends on the length fields; only the count is lowered to 0
+					cands = append(cands, cand{n, k, 12, 4, -1})
+				}
+			}
+			if len(cands) == 0 {
+				continue
+			}
+			c := cands[t.Draw(len(cands))]
+			if len(c.n.Raw) < c.cntOff+c.cntBytes {
+				continue
+			}
+			var cnt int
+			if c.cntBytes == 2 {
+				cnt = int(binary.BigEndian.Uint16(c.n.Raw[c.cntOff:]))
+			} else {
+				cnt = int(binary.BigEndian.Uint32(c.n.Raw[c.cntOff:]))
+			}
+			newCnt := 0
+			if cnt > 1 && c.entry > 0 {
+				newCnt = []int{0, 1, cnt - 1}[t.Draw(3)]
+			}
+			nn := c.n.clone()
+			raw := append([]byte(nil), c.n.Raw...)
+			keep := c.cntOff + c.cntBytes
+			if c.entry > 0 {
+				keep += newCnt * c.entry
+			}
+			if keep > len(raw) {
+				continue
+			}
+			raw = raw[:keep]
+			if c.cntBytes == 2 {
+				binary.BigEndian.PutUint16(raw[c.cntOff:], uint16(newCnt))
+			} else {
+				binary.BigEndian.PutUint32(raw[c.cntOff:], uint32(newCnt))
+			}
+			nn.Raw = raw
+			nn.OrigSize = uint64(8 + len(raw))
+			nl := append([]*UNode(nil), list...)
+			nl[c.k] = nn
+			*lv.list = nl
+			done = append(done, TransportOp{"shrink-table", where, fmt.Sprintf("%s %d->%d entries", nn.Type, cnt, newCnt)})
+			r.Fault("unit-table-shrunk")
 		case "largesize": // rewrite a box header into the 64-bit size form (legal for any box; typical for mdat)
 			var cands []int
 			for k, n := range list {
